@@ -48,12 +48,38 @@ def written_keys(funcs, docvars=("_yaml_doc", "yaml_doc")):
     return out
 
 
+def _table_strings(f, name):
+    """string constants in the values of the module-level literal table (dict / tuple of rows) from which the local `name` is taken in f (`a, b = TABLE[key]`,
+    `for a, b in TABLE`): the keys a table-driven reader may ask for"""
+    out = set()
+    mod = getattr(f.module, "tree", None)
+    if mod is None:
+        return out
+    tables = {t.id: st.value for st in mod.body if isinstance(st, ast.Assign) and isinstance(st.value, (ast.Dict, ast.Tuple, ast.List)) for t in st.targets if isinstance(t, ast.Name)}
+    for n in ast.walk(f.node):
+        src, tgt = None, None
+        if isinstance(n, ast.Assign):
+            src, tgt = n.value, n.targets[0]
+        elif isinstance(n, ast.For):
+            src, tgt = n.iter, n.target
+        if src is None or not any(isinstance(x, ast.Name) and x.id == name for x in ast.walk(tgt)):
+            continue
+        for x in ast.walk(src):
+            if isinstance(x, ast.Name) and x.id in tables:
+                lit = tables[x.id]
+                vals = lit.values if isinstance(lit, ast.Dict) else lit.elts
+                out |= {c.value for v in vals for c in ast.walk(v) if isinstance(c, ast.Constant) and isinstance(c.value, str)}
+    return out
+
+
 def consumed_keys(funcs):
     out = set()
     for f in funcs:
         for n in ast.walk(f.node):
             if isinstance(n, ast.Call) and isinstance(n.func, ast.Attribute) and n.func.attr in ("pop", "get") and n.args and common.const_str(n.args[0]):
                 out.add(common.const_str(n.args[0]))
+            elif isinstance(n, ast.Call) and isinstance(n.func, ast.Attribute) and n.func.attr in ("pop", "get") and n.args and isinstance(n.args[0], ast.Name):
+                out |= _table_strings(f, n.args[0].id)   # (a key taken from a literal table of the module)
             if isinstance(n, ast.Subscript) and isinstance(n.ctx, ast.Load) and common.const_str(n.slice):
                 out.add(common.const_str(n.slice))
             if isinstance(n, ast.Compare) and len(n.ops) == 1 and isinstance(n.ops[0], (ast.In, ast.NotIn)) and common.const_str(n.left):
